@@ -230,6 +230,7 @@ int main() {
         else if (f == "sw3") s.Set_OtherRhoTerms(c != 0);
         else if (f == "sw4") s.Set_GammaScalarTerms(c != 0);
         else if (f == "sw5") s.Set_OtherScalarTerms(c != 0);
+        else if (f == "any") s.Set_AnyNumerics(c != 0);
         else if (f == "mix") s.set_mix(pick(0, 0.3, 0.5, 0.7));
         else if (f == "grid") { if (c == 1) s.Set_xrange(1, 2, "lin"); else if (c == 2) s.Set_xrange(1, 4, "log"); else if (c == 9) s.Set_xrange(3, 7, "lin"); }
         else throw std::runtime_error("bad field");
